@@ -36,16 +36,28 @@ ENUM = {'name': 'Color', 'literals': ['RED', 'GREEN', 'BLUE']}
 # ---------------------------------------------------------------- value alphabets
 # every XML 1.0 legal oddity we could think of (Char ::= #x9 | #xA | #xD | [#x20-#xD7FF] | [#xE000-#xFFFD] | [#x10000-#x10FFFF])
 XML_STRINGS = [
-    '', ' ', 'a b', ' lead', 'trail ', '  ', 'a', 'b', 'abc', 'a\tb', '\t', 'a\nb', '\n', 'x\r\ny', '\r',
-    '<&>"\'', '&amp;', '<![CDATA[x]]>', ']]>', '<!--c-->', '&#10;', "it's", '"q"',
-    'été', 'ß', '中文', '\U0001f600', '퟿', '', '�',
-    ' ', 'a b', '\u0085', 'a\u0085b', ' ', 'a b', ' ', '　', 'a b', '​', '﻿',
-    '[]', '[', 'None', 'null', 'true', '0', '-1', '1.5', '#', '/', '//@x.0', '#//', 'a#b', 'a/b', '@', '%', '$ref',
-    'x' * 40, 'a  b', 'a \t b', '{', '}', ',', 'a,b', ';', '\\', '\\n',
+    '', ' ', 'a b', ' lead', 'trail ', '  ', 'a', 'b',
+    'abc', 'a\tb', '\t', 'a\nb', '\n', 'x\r\ny', '\r', '<&>"\'',
+    '&amp;', '<![CDATA[x]]>', ']]>', '<!--c-->', '&#10;', "it's", '"q"', '\xe9t\xe9',
+    '\xdf', '\u4e2d\u6587', '\U0001f600', '\ud7ff', '\ue000', '\ufffd', '\xa0', 'a\xa0b',
+    '\x85', 'a\x85b', '\u2028', 'a\u2028b', '\u2029', '\u3000', 'a\u2003b', '\u200b',
+    '\ufeff', '[]', '[', 'None', 'null', 'true', '0', '-1',
+    '1.5', '#', '/', '//@x.0', '#//', 'a#b', 'a/b', '@',
+    '%', '$ref', 'xxxxxxxxxxxxxxxxxxxxxxxxxxxxxxxxxxxxxxxx', 'a  b', 'a \t b', '{', '}', ',',
+    'a,b', ';', '\\', '\\n',
 ]
 # legal in JSON but not in XML 1.0
-JSON_ONLY_STRINGS = ['\x00', 'a\x00b', '\x01', '\x0b', '\x0c', '\x1c', '\x1d', '\x1e', '\x1f', '\x7f', '￾', '￿', '\x08']
-XML_CHARS = ['a', 'Z', '0', ' ', '\t', '\n', '<', '&', '"', "'", 'é', ' ', '\u0085', ' ', '\U0001f600', '　', '#', '/']
+JSON_ONLY_STRINGS = [
+    '\x00', 'a\x00b', '\x01', '\x0b', '\x0c', '\x1c', '\x1d', '\x1e',
+    '\x1f', '\x7f', '\ufffe', '\uffff', '\x08',
+]
+XML_CHARS = [
+    'a', 'Z', '0', ' ', '\t', '\n', '<', '&',
+    '"', "'", '\xe9', '\xa0', '\x85', '\u2028', '\U0001f600', '\u3000',
+    '#', '/',
+]
+# the values on which the attribute-vs-elements decision of the XMI writer turns
+CRITICAL_STRINGS = ['', ' ', '  ', '\t', '\n', 'a b', ' a', 'a ', '\xa0', 'a\xa0b', '\u2028', 'ab']
 INTS = [0, 1, -1, 2, 7, 42, -42, 2 ** 31 - 1, -2 ** 31, 2 ** 31, 2 ** 63 - 1, -2 ** 63, 2 ** 64, 10 ** 30, -10 ** 30, 2 ** 100 + 1]
 FLOATS = [0.0, 1.0, -1.0, 1.5, -2.25, 0.1, 1e300, -1e300, 1e-300, 5e-324, 1.7976931348623157e308, 123456789.123456789,
           1e16, 1e22, 1e-7, 3.141592653589793, float('inf'), float('-inf'), -0.0, 2.0 ** 53, 1 / 3]
@@ -54,17 +66,40 @@ DECIMALS = ['0', '1', '-1', '1.10', '1.1', '0.001', '-0.5', '1E+3', '1E-7', '123
 DATES = ['2020-01-02T03:04:05', '2020-01-02T03:04:05.000006', '1999-12-31T23:59:59.999999', '2000-02-29T00:00:00',
          '1000-01-01T00:00:00', '9999-12-31T23:59:59', '2021-06-15T12:00:00+00:00', '2021-06-15T12:00:00+02:00',
          '2021-06-15T12:00:00.123456-05:30', '1970-01-01T00:00:00+00:00', '2024-02-29T23:59:59.5+14:00']
-ID_VALUES = ['id1', 'x', 'k-2', 'idA', 'n_3', 'Z9', 'q.4', 'id:5', 'u6', 'w7', 'eé', 'v8', 'p9', 'id10', 'id11', 'id12']
-ODD_ID_VALUES = ['', ' ', 'a b', 'a\tb', '/', '/0', '//@x', '#x', 'a#b', '0', ' ']
+ID_VALUES = ['id1', 'x', 'k-2', 'idA', 'n_3', 'Z9', 'q.4', 'id:5', 'u6', 'w7', 'e\xe9', 'v8', 'p9', 'id10', 'id11', 'id12']
+ODD_ID_VALUES = [
+    '', ' ', 'a b', 'a\tb', '/', '/0', '//@x', '#x',
+    'a#b', '0', '\xa0',
+]
 
 
 def _pick(rng, xs):
     return xs[rng.randrange(len(xs))]
 
 
+def random_code_point(rng, fmt):
+    """XML 1.0 Char for 'xmi'; any code point (lone surrogates included) for 'json'"""
+    r = rng.random()
+    if fmt != 'xmi' and r < 0.15:
+        return rng.choice([rng.randrange(0, 32), rng.randrange(0xd800, 0xe000), 0xfffe, 0xffff, 0x7f])
+    if r < 0.4:
+        return rng.randrange(0x20, 0x7f)
+    if r < 0.6:
+        return rng.choice([9, 10, 13, 0x20, 0x85, 0xa0, 0x1680, 0x2000, 0x200a, 0x2028, 0x2029, 0x202f, 0x205f, 0x3000])
+    if r < 0.8:
+        return rng.randrange(0xa0, 0xd800)
+    if r < 0.9:
+        return rng.randrange(0xe000, 0xfffe)
+    return rng.randrange(0x10000, 0x110000)
+
+
 def gen_value(rng, typ, mm, fmt='xmi'):
     """a tagged value of the data type's domain"""
     if typ == 'EString':
+        if rng.random() < 0.25:
+            return ['s', _pick(rng, CRITICAL_STRINGS)]
+        if rng.random() < 0.1:
+            return ['s', ''.join(chr(random_code_point(rng, fmt)) for _ in range(rng.randrange(1, 5)))]
         pool = XML_STRINGS if fmt == 'xmi' or rng.random() < 0.8 else JSON_ONLY_STRINGS
         if rng.random() < 0.15:      # composed
             return ['s', _pick(rng, pool) + _pick(rng, pool)]
@@ -196,8 +231,11 @@ def gen_metamodel(rng, serial=0):
         for _ in range(rng.randrange(1, 5)):
             typ = rng_types[k % len(rng_types)] if rng.random() < 0.6 else _pick(rng, types)
             many = rng.random() < 0.45
-            c['features'].append({'kind': 'attr', 'name': f'a{k}', 'type': typ, 'many': many,
-                                  'unique': (rng.random() < 0.5) if many else True, 'iD': False})
+            feat = {'kind': 'attr', 'name': f'a{k}', 'type': typ, 'many': many,
+                    'unique': (rng.random() < 0.5) if many else True, 'iD': False}
+            if not many and rng.random() < 0.25:
+                feat['default'] = gen_value(rng, typ, mm)       # a declared default value
+            c['features'].append(feat)
             k += 1
     # references
     for c in classes:
@@ -319,8 +357,13 @@ def gen_model(rng, mm, fmt='xmi', size=None, odd_ids=False):
                 else:
                     if r < 0.28:
                         script.append([f['name'], ['n']])
+                    elif r < 0.36 and f.get('default') is not None:
+                        script.append([f['name'], list(f['default'])])      # explicitly set to its default
                     else:
-                        script.append([f['name'], gen_value(rng, f['type'], mm, fmt)])
+                        v = gen_value(rng, f['type'], mm, fmt)
+                        if v[0] == 'e' and rng.random() < 0.15:
+                            v = ['s', v[1]]             # an enumeration value given by name (C03 accepts it)
+                        script.append([f['name'], v])
             else:
                 if f['containment']:
                     kids = children.get((oid, f['name']))
@@ -397,8 +440,11 @@ class Built:
             for f in c['features']:
                 if f['kind'] == 'attr':
                     t = self.enums.get(f['type']) or getattr(E, f['type'])
+                    kw = {}
+                    if f.get('default') is not None:
+                        kw['default_value'] = self.pyvalue(f['default'], f['type'])
                     a = E.EAttribute(f['name'], t, upper=-1 if f['many'] else 1, unique=f['unique'],
-                                     iD=bool(f.get('iD')))
+                                     iD=bool(f.get('iD')), **kw)
                     self.features[f['name']] = a
                     k.eStructuralFeatures.append(a)
                 else:
